@@ -127,7 +127,14 @@ func (this *partition) loadRaft(nodeIds []uint64) error {
 	return nil
 }
 
-func (this *partition) unloadRaft() error {
+// Stops the partition's raft group on this node. The log is deleted only when the group
+// is gone for good (its dataset was deleted). A replica that is merely moved away keeps
+// it: the change of the replica set is recorded in the catalogue before the group's own
+// membership follows, so the group may still count this node as a member with the
+// progress it had. If the node hosts the partition again it has to come back with the
+// log it acknowledged (raft panics on a commit index the log does not have, and the
+// emptied log store of a deleted group cannot be loaded again at all).
+func (this *partition) unloadRaft(deleteLog bool) error {
 	this.raftMu.Lock()
 	defer this.raftMu.Unlock()
 	if this.raft == nil {
@@ -135,7 +142,9 @@ func (this *partition) unloadRaft() error {
 	}
 
 	this.raft.Stop()
-	this.wal.DeleteGroup()
+	if deleteLog {
+		this.wal.DeleteGroup()
+	}
 	this.raft = nil
 	this.log.Info("Unloaded Raft")
 	return nil
@@ -326,7 +335,7 @@ func (this *partition) removeNode(nodeId uint64) {
 	this.meta.NodeIds = newNodeIds
 
 	if nodeId == this.raftTransport.NodeId() {
-		this.unloadRaft()
+		this.unloadRaft(false)
 	}
 }
 
@@ -339,7 +348,7 @@ func (this *partition) setNodes(nodeIds []uint64) {
 	if isOnNode && !wasOnNode {
 		this.loadRaft(nil)
 	} else if !isOnNode && wasOnNode {
-		this.unloadRaft()
+		this.unloadRaft(false)
 	}
 }
 
